@@ -188,6 +188,10 @@ def compare(schema, text, resources, main=MAIN, expect_reject=False):
 
 
 def evaluate(case):
+    if "chain" in case:
+        text, resources = deep_chain(*case["chain"])
+        _, _, fl = compare(loadcheck.load_schema_xml(CHAIN_SCHEMA), text, resources)
+        return [failure(sig + ":chain-of-%d-includes" % case["chain"][0], case, d) for sig, d in fl]
     try:
         schema, _ = loadcheck.load_schema(case["schema"])
     except Exception:
@@ -216,9 +220,47 @@ def nontrivial_cut(cuts, resources):
     return len(cuts) >= 1 and (len(dirs) > 1 or len(cuts) > 1)
 
 
+CHAIN_SCHEMA = '<schema><multikey name="m"/><sectiontype name="s"><multikey name="m"/></sectiontype><multisection type="s" name="*" attribute="ss"/></schema>'
+
+
+def deep_chain(depth, inside):
+    """'to any include depth': a chain of includes, every level adding a line before and after its
+    include.  -> (the text as one piece, resources)"""
+    def lines(k):
+        if k == depth:
+            return ["m bottom"]
+        return ["m before-%d" % k] + lines(k + 1) + ["m after-%d" % k]
+    whole = lines(0)
+    resources = {}
+    for k in range(depth + 1):
+        url = MAIN if k == 0 else model.url_join(MAIN, "chain%d.conf" % k)
+        if k == depth:
+            body = ["m bottom"]
+        else:
+            body = ["m before-%d" % k, "%%include chain%d.conf" % (k + 1), "m after-%d" % k]
+        resources[url] = "".join(l + "\n" for l in body)
+    if inside:
+        whole = ["<s>"] + whole + ["</s>"]
+        resources[MAIN] = "<s>\n" + resources[MAIN] + "</s>\n"
+    return "".join(l + "\n" for l in whole), resources
+
+
 def run_shard(spec):
     res = Result()
     counters = collections.Counter()
+    if spec["lo"] == 0:
+        chain_schema = loadcheck.load_schema_xml(CHAIN_SCHEMA)
+        for depth in (4, 12, 31, 32, 33, 40, 64):
+            for inside in (False, True):
+                text, resources = deep_chain(depth, inside)
+                res.evaluations += 1
+                counters["include-chains"] += 1
+                inline, split, fl = compare(chain_schema, text, resources)
+                if inline[0] == "ok":
+                    res.nontrivial(key=["chain", depth, inside])
+                for sig, d in fl:
+                    res.fail(sig + ":chain-of-%d-includes" % depth, {"chain": [depth, inside]}, d)
+        res.exhaustive_parts.append("include chains of depth 4, 12, 31, 32, 33, 40, 64, at top level and inside a section")
     for i in range(spec["lo"], spec["hi"]):
         rng = loadcheck.case_rng(spec["seed"] + 606, i)
         ast = gen.gen_schema(rng)
